@@ -146,11 +146,18 @@ pub fn drive_eval(seed: u64, n: usize, sink: &mut Sink) -> usize {
                     0 => (0..len).map(|_| rng.nice()).collect(),
                     _ => (0..len).map(|_| rng.float_exp(-8, 8)).collect::<Vec<f64>>(),
                 };
-                if len > 1 && rng.below(3) == 0 {
+                // thresholds of "near 1" short-cuts (series for ln, ln_1p, ...) sit a few binades below 1e-2: a dense band
+                // there, always with no (or a negligible) constant term so that the value is as small as ln v itself
+                let band = rng.below(8) == 0;
+                if len > 1 && (band || rng.below(3) == 0) {
                     // no (or a negligible) constant term: the value is then as small as ln v itself
                     c[0] = if rng.bool() { 0.0 } else { c[0] * 1e-12 };
                 }
-                let v = match rng.below(10) {
+                let v = match if band { 10 } else { rng.below(10) } {
+                    10 => {
+                        let d = rng.float_exp(-16, -6).abs();
+                        if rng.bool() { 1.0 + d } else { 1.0 - d }
+                    }
                     // |v - 1| log-uniform over 2^-52 .. 2^-1: a special point must be approached at every scale
                     8 | 9 => {
                         let d = rng.float_exp(-52, -1).abs();
@@ -1120,13 +1127,20 @@ macro_rules! pwint_case {
     ($T:ty, $kind:expr, $rng:expr, $sink:expr) => {{
         let log = $kind == "log";
         let n = if !log && $rng.below(40) == 0 { $rng.long_len().min(65) } else { 1 + $rng.size(5, 12, 4) as usize };
-        let ends = if log { sorted_pos_ends($rng, n) } else { sorted_any_ends($rng, n) };
+        let mut ends = if log { sorted_pos_ends($rng, n) } else { sorted_any_ends($rng, n) };
+        match $rng.below(12) {
+            // the open right end written as +infinity (also as the only breakpoint), and an axis of huge abscissae: the
+            // antiderivative overflows there, but nothing that needs no arithmetic may be affected
+            0 | 1 => *ends.last_mut().unwrap() = f64::INFINITY,
+            2 => for e in ends.iter_mut() { *e *= 1e120; },
+            _ => {}
+        }
         let ar = <$T as Form>::arity().unwrap();
         let mut pw: Piecewise<$T> = Piecewise {
             segments: ends.iter().map(|&e| Segment { end: e, poly: <$T>::from_flat(&(0..ar).map(|_| if $rng.bool() { $rng.nice() } else { $rng.float_exp(-3, 3) }).collect::<Vec<f64>>()) }).collect(),
         };
         // knot: at, inside, left of the first piece, or beyond it
-        let e1 = ends[0];
+        let e1 = if ends[0].is_finite() { ends[0] } else { 1.5 };
         let kx = match $rng.below(5) {
             0 => e1,
             1 => if log { e1 * 0.5 } else { e1 - 1.0 },
